@@ -382,6 +382,21 @@ def step (st : St) (cmd : String) (args : List String) : St × String :=
           | .error (.missing h used) => s!"exn MissingTraversalNode {toHex h} {pathStr used}"
           | .error _ => "exn Invalid")
     | _, _ => bad
+  -- raw level of `traverse_from(node, segment)`: the kept node (register) is turned into its raw item and its children are
+  -- read from the database AS IT IS NOW (a stale parent of an older version over the current, possibly pruned, database)
+  | "travfromd", [r, p] =>
+    match r.toNat?, parsePath p with
+    | some r, some p =>
+      if r ≥ st.regs.size then bad else
+      let fmtD (a : HexD.AnnD) : String :=
+        s!"{kindStr a.kind} subs={joinOr (a.subs.map pathStr) ","} value={toHex a.value} suffix={pathStr a.suffix} raw={toHex (rlp a.raw)}"
+      (st, match HexD.traverseOutD keccak w.base (w.base.length + p.length + 2) (toItem keccak st.regs[r]!) p with
+        | .ok (.node a) => s!"node {fmtD a}"
+        | .ok (.partialPath tr a tail sim) =>
+          s!"partial traversed={pathStr tr} tail={pathStr tail} node=[{fmtD a}] sim=[{match sim with | some x => fmtD x | none => "bug"}]"
+        | .error (.missing h used) => s!"exn MissingTraversalNode {toHex h} {pathStr used}"
+        | .error _ => "exn Invalid")
+    | _, _ => bad
   | "proofd", [r, k] =>
     match ofHex r, ofHex k with
     | some r, some k =>
